@@ -6,7 +6,8 @@
     arithmetic ([Val]/[Panic]) and [Result] values ([Ok]/[Err]). *)
 From Coq Require Import ZArith List Bool.
 From V Require Import Base.Int Base.IO.
-From V Require Import Spec.Zone.
+From V Require Import Spec.Zone Proofs.TzCommon.
+From V Require Spec.Gregorian.
 From V Require Import Model.TzParser Model.TzRule Model.TzLookup Model.C05 Proofs.C05.
 From V Require Model.Date Model.DateTime.
 Import ListNotations.
@@ -175,3 +176,139 @@ Theorem C05_example :
   instants_of_wall (szone_of ex_ps ex_cet) 1688169600 = [1688162400].
 Proof. exact ex_facts. Qed.
 Print Assumptions C05_example.
+
+(** ** POSIX rules (footer rule / TZ string), against the calendar and zone oracles.
+    [conv_day] / [conv_rule]: the rule as the oracle sees it; [alt_ok]: a rule the reader can
+    produce (days in range, |times| < 7 days, 32-bit offsets). *)
+
+(* days_since_unix_epoch is the oracle's day number relative to 1970-01-01, for every year an i32
+   can hold, every month and day offsets in +-100 *)
+Theorem C05_days_since_unix_epoch : forall year month md,
+  -2147483650 <= year <= 2147483650 -> 1 <= month <= 12 -> -100 <= md <= 100 ->
+  days_since_unix_epoch year month md = Val (Gregorian.dn_of_ymd year month md - Gregorian.EPOCH_DN).
+Proof. exact dse_eq. Qed.
+Print Assumptions C05_days_since_unix_epoch.
+
+(* RuleDay::transition_date: a date of the year whose day number is the oracle's rule day *)
+Theorem C05_transition_date : forall d year, day_ok d -> -2147483650 <= year <= 2147483650 ->
+  exists m md, transition_date d year = Val (m, md) /\ 1 <= m <= 12 /\ 1 <= md <= 32 /\
+               Gregorian.dn_of_ymd year m md = rday_dn year (conv_day d).
+Proof. exact transition_date_eq. Qed.
+Print Assumptions C05_transition_date.
+
+(* RuleDay::unix_time *)
+Theorem C05_rule_unix_time : forall d year tt, day_ok d -> -2147483650 <= year <= 2147483650 ->
+  -10000000000 <= tt <= 10000000000 ->
+  rule_unix_time d year tt = Val ((rday_dn year (conv_day d) - Gregorian.EPOCH_DN) * 86400 + tt).
+Proof. exact rule_unix_time_eq. Qed.
+Print Assumptions C05_rule_unix_time.
+
+(* UtcDateTime::from_timespec: the year is the oracle's year of the instant *)
+Theorem C05_from_timespec_year : forall t, -1000000000000000 <= t <= 1000000000000000 ->
+  exists mo md h mi s, from_timespec t = Val (Ok (utc_year t, mo, md, h, mi, s)).
+Proof. exact from_timespec_utc_year. Qed.
+Print Assumptions C05_from_timespec_year.
+
+(* rule_offset_spec: AlternateTime::find_local_time_type answers DST exactly when the instant lies
+   in a DST interval of the rule, for every rule and instant satisfying the property's premise
+   (rule transitions more than a day inside the years around the instant) whose start/end order
+   is the same in the previous and the current year *)
+Theorem C05_rule_offset_spec : forall a t, alt_ok a -> -1000000000000000 <= t <= 1000000000000000 ->
+  let r := conv_rule a in let y := utc_year t in
+  -86400 < r_std r < 86400 -> -86400 < r_dst r < 86400 ->
+  premise_year r (y - 2) = true -> premise_year r (y - 1) = true ->
+  premise_year r y = true -> premise_year r (y + 1) = true ->
+  (rule_start_utc r (y - 1) <? rule_end_utc r (y - 1)) = (rule_start_utc r y <? rule_end_utc r y) ->
+  alt_find_local_time_type a t = Val (Ok (if rule_is_dst r t then a_dst a else a_std a)).
+Proof. exact rule_offset_spec. Qed.
+Print Assumptions C05_rule_offset_spec.
+
+(* offset_at_spec, rule part: zones with a footer rule at or after the last transition, and TZ
+   strings at every instant *)
+Theorem C05_offset_at_rule : forall z a t,
+  leap_seconds z = [] -> extra_rule z = Some (Alternate a) ->
+  (transitions z = [] \/ exists lst, last_of (transitions z) = Some lst /\ tr_time lst <= t) ->
+  rule_hyps a t ->
+  find_local_time_type z t = Val (Ok (if rule_is_dst (conv_rule a) t then a_dst a else a_std a)).
+Proof. exact offset_at_rule. Qed.
+Print Assumptions C05_offset_at_rule.
+Theorem C05_zone_off_rule : forall first tr r t,
+  (match last_trans tr with Some tl => tl < t | None => True end) ->
+  zone_off (mk_szone first tr (Some (inr r))) t = Some (if rule_is_dst r t then r_dst r else r_std r).
+Proof. exact zone_off_rule. Qed.
+Print Assumptions C05_zone_off_rule.
+
+(* wall clock -> candidates for a rule: the four hemisphere/sign branches are the transition-table
+   scan over the year's two transitions; hence C05_table_* (roundtrip, classification, order)
+   apply to [year_table a y].
+   PARTIAL w.r.t. the full classification against instants_of_wall of a zone with a rule: what is
+   not proved is that for a wall reading of year y the oracle's candidates are exactly those of
+   the year's two transitions (it needs the premise for the neighbouring years plus the window
+   algebra of rule_is_dst); the correspondence run covers that link. *)
+Theorem C05_rule_local_year_table_partial : forall a y l, alt_ok a -> -2147483650 <= y <= 2147483650 ->
+  ut_offset (a_std a) <> ut_offset (a_dst a) ->
+  let '(ps, first) := year_table a y in
+  ordered (windows (offs ps) (ut_offset first)) = true ->
+  excepted_table (offs ps) (ut_offset first) l = false ->
+  alt_find_local_time_type_from_local a y l = Val (Ok (table_answer ps first l)).
+Proof. exact rule_local_as_table. Qed.
+Print Assumptions C05_rule_local_year_table_partial.
+Theorem C05_from_local_rule_zone_partial : forall z a first y l,
+  transitions z = [] -> index (local_time_types z) 0 = Val first -> extra_rule z = Some (Alternate a) ->
+  alt_ok a -> -2147483650 <= y <= 2147483650 -> ut_offset (a_std a) <> ut_offset (a_dst a) ->
+  let '(ps, prev) := year_table a y in
+  ordered (windows (offs ps) (ut_offset prev)) = true ->
+  excepted_table (offs ps) (ut_offset prev) l = false ->
+  find_local_time_type_from_local z y l = Val (Ok (table_answer ps prev l)).
+Proof. exact from_local_rule_zone. Qed.
+Print Assumptions C05_from_local_rule_zone_partial.
+
+(* FULL classification for a TZ string (zone given by a POSIX rule alone): for a wall reading l of
+   year k = utc_year l, off the excepted boundary seconds, under the property's premise for the
+   years k-3..k+2 (rule_year_hyps) and with the year's two transition windows disjoint and in order,
+   the answer lists exactly the oracle's instants_of_wall, earliest first *)
+Theorem C05_rule_zone_classification : forall z a first l,
+  let k := utc_year l in let r := conv_rule a in
+  transitions z = [] -> index (local_time_types z) 0 = Val first -> extra_rule z = Some (Alternate a) ->
+  alt_ok a -> -2147483650 <= k <= 2147483650 -> r_std r <> r_dst r -> rule_year_hyps r k ->
+  let '(ps, prev) := year_table a k in
+  ordered (windows (offs ps) (ut_offset prev)) = true ->
+  excepted_table (offs ps) (ut_offset prev) l = false ->
+  exists m, find_local_time_type_from_local z k l = Val (Ok m) /\
+  let S := instants_of_wall (mk_szone (ut_offset first) [] (Some (inr r))) l in
+  match m with
+  | MNone => S = []
+  | MSingle x => forall t, In t S <-> t = l - ut_offset x
+  | MAmbiguous x y => l - ut_offset x < l - ut_offset y /\
+                      forall t, In t S <-> t = l - ut_offset x \/ t = l - ut_offset y
+  end.
+Proof. exact rule_zone_classification. Qed.
+Print Assumptions C05_rule_zone_classification.
+(* the seconds excepted there are among the oracle's excepted seconds *)
+Theorem C05_excepted_wall_year_table : forall a first l,
+  let r := conv_rule a in
+  let '(ps, prev) := year_table a (utc_year l) in
+  excepted_wall (mk_szone first [] (Some (inr r))) l = false ->
+  excepted_table (offs ps) (ut_offset prev) l = false.
+Proof. exact excepted_wall_year_table. Qed.
+Print Assumptions C05_excepted_wall_year_table.
+(* the oracle's DST predicate in terms of the two transitions of the year of the wall reading *)
+Theorem C05_rule_is_dst_year : forall r k t, rule_year_hyps r k ->
+  (year_start k <= t + r_std r < year_start (k + 1) \/ year_start k <= t + r_dst r < year_start (k + 1)) ->
+  rule_is_dst r t =
+  (if rule_start_utc r k <? rule_end_utc r k
+   then (rule_start_utc r k <=? t) && (t <? rule_end_utc r k)
+   else (t <? rule_end_utc r k) || (rule_start_utc r k <=? t)).
+Proof. exact rule_is_dst_year. Qed.
+Print Assumptions C05_rule_is_dst_year.
+
+(** ** Known finding C05-closely-spaced-transitions: the spacing hypothesis of
+    C05_classification_table / C05_roundtrip_table cannot be dropped *)
+Theorem C05_unspaced_refuted :
+  table_zone un_zone un_ps un_a /\ extra_rule un_zone = None /\ increasing (offs un_ps) = true /\
+  spacing_table (offs un_ps) (ut_offset un_a) = false /\
+  excepted_wall (szone_of un_ps un_a) 1001800 = false /\
+  find_local_time_type_from_local un_zone 1970 1001800 = Val (Ok (MAmbiguous un_a un_b)) /\
+  instants_of_wall (szone_of un_ps un_a) 1001800 = [998200].
+Proof. exact unspaced_refuted. Qed.
+Print Assumptions C05_unspaced_refuted.
